@@ -328,6 +328,9 @@ def bb_ladder(bbox, case, rep, rng):
              "MultiTaskBCD": "max_epochs"}.get(case.solver)
     w0 = None
     ladders = [[("max_iter", k) for k in (0, 1, 2, 3, 5)]]
+    if case.solver == "GramCD":
+        # GramCD extrapolates in its outer loop: budgets ending before, at and after the 7th, 14th, 21st iteration
+        ladders = [[("max_iter", k) for k in (0, 1, 2, 5, 6, 7, 8, 13, 14, 15, 20, 21, 22)]]
     if inner:
         ladders.append([(inner, e) for e in ((1, 2, 3, 5, 8) if "pn" in inner else (1, 5, 6, 7, 8, 13, 14))])
     for seq in ladders:
